@@ -651,13 +651,36 @@ def try_to_hashable(
         return UnhashableError
 
 
+def _sort_key(obj: Any) -> tuple:
+    """Key for sorting hashable objects in a canonical order.
+
+    ``sorted`` on the objects themselves raises ``TypeError`` for mutually incomparable
+    objects (``{1, "a"}``, ``{None, 1}``) and does not produce a canonical order for
+    objects that are only partially ordered (``frozenset``). This key defines a total
+    order that does not depend on insertion order or on the hash seed: numbers compare
+    by value (so ``1``, ``True`` and ``1.0`` share a key), then ``str``/``bytes``,
+    ``None``, tuples and frozensets (recursively), everything else by type name and repr.
+    """
+    if isinstance(obj, (int, float)):  # includes bool
+        return ("number", obj)
+    if isinstance(obj, (str, bytes)):
+        return (type(obj).__name__, obj)
+    if obj is None:
+        return ("None",)
+    if isinstance(obj, tuple):
+        return ("tuple", tuple(_sort_key(x) for x in obj))
+    if isinstance(obj, (frozenset, set)):
+        return ("frozenset", tuple(sorted(_sort_key(x) for x in obj)))
+    return ("~" + type(obj).__qualname__, repr(obj))
+
+
 def _hashable_iterable(
     iterable: Iterable,
     fallback_to_pickle: bool,  # noqa: FBT001
     *,
     sort: bool = False,
 ) -> tuple:
-    items = sorted(iterable) if sort else iterable
+    items = sorted(iterable, key=_sort_key) if sort else iterable
     return tuple(to_hashable(item, fallback_to_pickle) for item in items)
 
 
@@ -667,7 +690,7 @@ def _hashable_mapping(
     *,
     sort: bool = False,
 ) -> tuple:
-    items = sorted(mapping.items()) if sort else mapping.items()
+    items = sorted(mapping.items(), key=lambda kv: _sort_key(kv[0])) if sort else mapping.items()
     return tuple((k, to_hashable(v, fallback_to_pickle)) for k, v in items)
 
 
@@ -729,7 +752,8 @@ def to_hashable(  # noqa: C901, PLR0911, PLR0912
         return (m, tp, data)
     if isinstance(obj, collections.Counter):
         # Counter equality treats a missing element as a zero count (Counter(a=0) == Counter())
-        return (m, tp, tuple(sorted(item for item in obj.items() if item[1] != 0)))
+        items = (item for item in obj.items() if item[1] != 0)
+        return (m, tp, tuple(sorted(items, key=lambda kv: _sort_key(kv[0]))))
     if isinstance(obj, dict):
         return (m, tp, _hashable_mapping(obj, fallback_to_pickle, sort=True))
     if isinstance(obj, set | frozenset):
